@@ -27,7 +27,7 @@ func init() {
 		Tech:        "static analysis: targeted nil-guard dominance (access-path facts, helper-parameter and closure summaries) + error-discipline on SSA",
 		NeedU1:      true,
 		NeedU2:      true,
-		Rules:       []func(*Ctx){ruleC07NilGuard, ruleC07LengthGuard, ruleC07AuthenticatedOnly, ruleC07ErrorsPropagate, ruleC07SuccessCarriesData, ruleC07UseAfterErrorCheck, ruleC07DecodedPointerElementsGuarded, ruleC07MapLookupPointerGuarded, ruleC01ProvenanceDecrypt, ruleC07AtomicValueSingleType, ruleC19SessionNil, noWriteToNilledMapRule("C07", pkgApp, pkgCache), nilContradictionRule("C07", false, "github.com/godaddy/asherah/go/appencryption"), recoverReportsFailureRule("C07", pkgApp, pkgInt, pkgPersist, pkgKmsV1, pkgKmsV2, pkgDynV1, pkgDynV2), ruleC19NilSafeDecoding, ruleC15FilterGeometryFixed, ruleC15LFUNoEmptyBucket, ruleC15ListEndsNonEmpty, ruleC19NilableResultsChecked},
+		Rules:       []func(*Ctx){ruleC07NilGuard, ruleC07LengthGuard, ruleC07AuthenticatedOnly, ruleC07ErrorsPropagate, ruleC07SuccessCarriesData, ruleC07UseAfterErrorCheck, ruleC07DecodedPointerElementsGuarded, ruleC07MapLookupPointerGuarded, ruleC01ProvenanceDecrypt, ruleC07AtomicValueSingleType, ruleC19SessionNil, noWriteToNilledMapRule("C07", pkgApp, pkgCache), nilContradictionRule("C07", false, "github.com/godaddy/asherah/go/appencryption"), recoverReportsFailureRule("C07", pkgApp, pkgInt, pkgPersist, pkgKmsV1, pkgKmsV2, pkgDynV1, pkgDynV2), ruleC19NilSafeDecoding, ruleC15FilterGeometryFixed, ruleC15LFUNoEmptyBucket, ruleC15ListEndsNonEmpty, ruleC19NilableResultsChecked, ruleC01CallerBuffersImmutable},
 	})
 }
 
